@@ -32,7 +32,14 @@ RULE = ('Data and Interest packets built by make_data / make_interest from rando
         'caller-supplied digest component in some), all presence combinations of MetaInfo / InterestParam fields, payload '
         'sizes concentrated around every size at which an enclosing Length changes form (253, 65536) plus up to 70000, and '
         'signers none / DigestSha256 / HMAC / ECDSA P-256,384,521 (variable DER length) / RSA-2048 / Ed25519 / Null / a synthetic '
-        'signer sweeping (reserved, real) sizes. non-trivial = packet was built and has a payload or a signature; distinct = '
+        'signer sweeping (reserved, real) sizes. Hardening stream (45% of the cases): the name handed over as URI string / '
+        'list of URI-component strings / encoded Name TLV (bytes, memoryview) / mixed list or tuple; one long component and '
+        'total name sizes at 253 / 65536 (3-byte component Types too); ForwardingHint with up to 40 names or names moving '
+        'the Length of Links across 253; MetaInfo / InterestParam / SignatureInfo integers at every width; a FinalBlockId '
+        'moving the Length of MetaInfo across 253; present-but-empty MetaInfo, Content and ApplicationParameters; long '
+        'KeyLocator names for the keyed signers; a signer writing KeyDigest / SignatureNonce / Time / SeqNum; RSA-4096 in the '
+        'thorough tier. The oracle also judges the InterestParam / MetaInfo objects parse_interest / parse_data return. '
+        'non-trivial = packet was built and has a payload or a signature; distinct = '
         'distinct generator inputs')
 LEVEL_TEXT = ('Lean 4 theorems about the model of make_data / make_interest: for every name, field combination, payload and '
               'every signer behaviour (any reserved size, any signature not longer than it) the result is exactly one TLV '
@@ -75,6 +82,11 @@ def shrink(case):
         for k in ('nonce', 'lifetime', 'hop_limit'):
             if p[k] is not None:
                 yield dict(case, param=dict(p, **{k: None}))
+    for k in ('name_form', 'fh_form', 'key_name'):
+        if case.get(k) is not None:
+            yield {a: b for a, b in case.items() if a != k}
+    if case['signer'][0] == 'custom':
+        yield dict(case, signer=['synth', case['signer'][1], case['signer'][2]])
     if case['name']:
         yield dict(case, name=case['name'][:-1])
         yield dict(case, name=case['name'][1:])
@@ -166,6 +178,11 @@ def oracle(case, impl):
             return f'parsed MetaInfo {got_meta} differs from the one given {exp_meta}'
         if signed and p['SV'] is None:
             return 'signed packet parsed without a SignatureValue'
+        # what parse_data itself hands back (a MetaInfo object)
+        if m0 is not None and p.get('api') is not None:
+            for k in ('content_type', 'freshness_period', 'final_block_id'):
+                if p['api'][k] != m0[k]:
+                    return f'MetaInfo returned by parse_data: {k} differs from the one given'
     else:
         need = case['app'] is not None or signed
         has_digest = [c for c in name if c.startswith('02')]
@@ -193,6 +210,17 @@ def oracle(case, impl):
         got_mid = [_field(p['values'], i) for i in range(8, 14)]
         if got_mid != exp:
             return f'parsed Interest parameters {got_mid} differ from the ones given {exp}'
+        # what parse_interest itself hands back (an InterestParam object)
+        a = p.get('api')
+        if a is not None:
+            for k in ('nonce', 'lifetime', 'hop_limit'):
+                if a[k] != pr[k]:
+                    return f'InterestParam returned by parse_interest: {k} differs from the one given'
+            for k in ('can_be_prefix', 'must_be_fresh'):
+                if bool(a[k]) != bool(pr[k]):
+                    return f'InterestParam returned by parse_interest: {k} differs from the one given'
+            if a['forwarding_hint'] != fh:
+                return 'InterestParam returned by parse_interest: forwarding_hint differs from the one given'
     return None
 
 
@@ -219,7 +247,10 @@ def nontrivial(case, impl):
 
 
 def tags(case, impl):
-    t = ['pkt:' + case['pkt'], 'signer:' + case['signer'][0], 'made:' + impl['made']['made'][0]]
+    t = ['pkt:' + case['pkt'], 'signer:' + case['signer'][0], 'made:' + impl['made']['made'][0],
+         'nameform:' + (case.get('name_form') or 'comps')]
+    if case.get('key_name') is not None:
+        t.append('keyname:given')
     if impl['made']['made'][0] == 'ok':
         n = len(impl['made']['made'][1]) // 2
         t.append('size:' + ('<253' if n < 253 else '253..259' if n < 260 else '<65536' if n < 65536 else '>=65536'))
